@@ -10,6 +10,7 @@ import (
 	"fmt"
 	"net/http"
 	"net/http/httptest"
+	"net/netip"
 	"sync"
 
 	"github.com/tailscale/setec/audit"
@@ -68,6 +69,9 @@ func NewWithAudit(d *db.DB, aw *audit.Writer) (*Srv, error) {
 	return s, nil
 }
 
+// SetWhoIP registers w for every address with the given IP, whatever the port.
+func (s *Srv) SetWhoIP(ip string, w Who) { s.SetWho("ip:"+ip, w) }
+
 func (s *Srv) SetWho(addr string, w Who) {
 	s.mu.Lock()
 	s.who[addr] = w
@@ -81,6 +85,14 @@ func (s *Srv) whois(ctx context.Context, addr string) (*apitype.WhoIsResponse, e
 		return ov(ctx, addr)
 	}
 	w, ok := s.who[addr]
+	if !ok {
+		// identities registered for a bare IP answer for every port (and for the bare IP itself)
+		host := addr
+		if ap, err := netip.ParseAddrPort(addr); err == nil {
+			host = ap.Addr().Unmap().String()
+		}
+		w, ok = s.who["ip:"+host]
+	}
 	s.mu.Unlock()
 	if !ok && s.any != nil {
 		w, ok = *s.any, true
@@ -216,10 +228,39 @@ func Interpret(op ops.Op, rep Reply) (ops.Result, bool) {
 
 // Do sends op as a well-formed API request from remoteAddr.
 func (s *Srv) Do(remoteAddr string, op ops.Op) (ops.Result, Reply, bool) {
+	return s.DoWith(remoteAddr, op, nil)
+}
+
+// DoWith is Do with additional request headers (which a client is free to send).
+func (s *Srv) DoWith(remoteAddr string, op ops.Op, extra map[string]string) (ops.Result, Reply, bool) {
 	path, body := Request(op)
-	rep := s.Raw("POST", path, remoteAddr, GoodHeaders, body)
+	hdr := GoodHeaders
+	if len(extra) > 0 {
+		hdr = map[string]string{}
+		for k, v := range GoodHeaders {
+			hdr[k] = v
+		}
+		for k, v := range extra {
+			hdr[k] = v
+		}
+	}
+	rep := s.Raw("POST", path, remoteAddr, hdr, body)
 	res, ok := Interpret(op, rep)
 	return res, rep, ok
+}
+
+// SpoofHeaders are header sets by which a client may CLAIM to be somebody else (the peer at ip);
+// identity is what the tailnet says about the connection's source address, never what the request says.
+func SpoofHeaders(ip, login string) []map[string]string {
+	return []map[string]string{
+		{"X-Forwarded-For": ip},
+		{"X-Forwarded-For": ip + ", 10.1.2.3"},
+		{"X-Real-Ip": ip},
+		{"Forwarded": "for=" + ip + ";proto=https"},
+		{"Tailscale-User-Login": login, "Tailscale-User-Name": "Super", "Tailscale-Headers-Info": "https://tailscale.com/s/serve-headers"},
+		{"X-Forwarded-For": ip, "X-Forwarded-Host": "setec.verif", "X-Forwarded-Proto": "https", "Via": "1.1 proxy"},
+		{"X-Webauth-User": login, "X-Remote-User": login, "Remote-Addr": ip + ":4711"},
+	}
 }
 
 // ClientDo returns a DoHTTP function for setec.Client that serves the request
